@@ -340,12 +340,14 @@ def run_real(case):
     if case['side'] == 'a':
         a, b = b, a
     res = {}
+    before = (kgen.describe(a), kgen.describe(b))
     for name, (x, y) in (('equal', (a, b)), ('equal_swapped', (b, a))):
         try:
             res[name] = bool(equal_kapture(x, y))
         except Exception as e:
             res[name] = 'error:' + type(e).__name__
     res['views'] = (view(a), view(b))
+    res['operands_unchanged'] = (kgen.describe(a), kgen.describe(b)) == before    # a comparison only looks
     _cache[k] = res
     return res
 
@@ -465,6 +467,8 @@ def oracle(case):
     for k in ('equal', 'equal_swapped'):
         if isinstance(r[k], str):
             return {'signature': 'raises:' + r[k][6:], 'detail': f'equal_kapture raised {r[k]} ({info})'}
+    if not r['operands_unchanged']:
+        return {'signature': 'operands-modified', 'detail': f'equal_kapture changed one of the datasets it compared ({info})'}
     if r['equal'] != r['equal_swapped']:
         return {'signature': 'asymmetric', 'detail': f'equal(a,b)={r["equal"]} but equal(b,a)={r["equal_swapped"]} ({info})'}
     if r['equal'] != info['expect_equal']:
